@@ -145,8 +145,12 @@ def _run_cb(ctx, spec, rng):
 
     r = spec[1]
     d = 2 if r % 3 else 3
-    kind = ["channel", "cp", "hp-difference", "hp-general", "cp-replacement", "hp-transpose", "hp-unital-affine"][r % 7]
-    if kind == "hp-transpose":  # X -> X^T: Hermiticity preserving, unital, trace preserving, not CP; every cb norm equals d
+    kind = ["channel", "cp", "hp-difference", "hp-general", "cp-replacement", "hp-transpose", "hp-unital-affine", "general-AXB", "hp-difference"][r % 9]
+    phase = 1.0
+    if kind == "general-AXB":  # X -> A X B^dagger with A != B: not Hermiticity preserving; both cb norms equal |A| |B| (operator norms)
+        a_, b_ = gen.rc(rng, d, d), gen.rc(rng, d, d)
+        j = choi([a_], [b_])
+    elif kind == "hp-transpose":  # X -> X^T: Hermiticity preserving, unital, trace preserving, not CP; every cb norm equals d
         j = sum(np.kron(e_, e_.T) for e_ in (np.outer(np.eye(d)[a_], np.eye(d)[b_]) for a_ in range(d) for b_ in range(d)))
     elif kind == "hp-unital-affine":  # (1 + t) id - t U . U^dagger: Hermiticity preserving, unital, trace preserving, not CP
         t_ = float(rng.uniform(0.2, 1.5))
@@ -171,6 +175,9 @@ def _run_cb(ctx, spec, rng):
     sig = (d, kind)
     det = {"d": d, "class": kind, "value": val, "return_site": site}
     ctx.sample("O2:cb-homogeneous", det)
+    if kind == "general-AXB":
+        want_ab = float(np.linalg.norm(a_, 2) * np.linalg.norm(b_, 2))
+        ctx.check("O2:cb-closed-form", None, dev=abs(val - want_ab) / (1 + want_ab), tol=TOLA * 2, sig=sig, nt=True, mech="cb_trace_norm:AXB-map!=|A||B|", detail=dict(det, want=want_ab))
     if kind == "hp-transpose":
         ctx.check("O2:cb-closed-form", None, dev=abs(val - d), tol=TOLA * (1 + d), sig=sig, nt=True, mech="cb_trace_norm:transpose-map!=d", detail=det)
     if kind == "channel":
@@ -187,7 +194,7 @@ def _run_cb(ctx, spec, rng):
         lo = explicit_lower(rng, j, d)
         ctx.check("O1:diamond>=explicit-input", val >= lo - TOLA * (1 + lo) and val <= ref.trace_norm(j) + TOLA * (1 + lo), sig=sig, nt=True, mech="cb_trace_norm:outside-explicit-bracket",
                   detail=dict(det, attained=lo, upper=ref.trace_norm(j)))
-        c = float(rng.choice([-2.5, 0.3, -1.0, 4.0]))
+        c = [-2.5, 0.3, -1.0, 4.0, 1j, 2 * np.exp(0.7j), -0.5j][int(rng.integers(0, 7))]  # absolutely homogeneous: also for complex scalars
         scaled, _ = _cb(ctx, c * j)
         if scaled is not None:
             ctx.check("O2:cb-homogeneous", None, dev=abs(scaled - abs(c) * val) / (1 + abs(c) * val), tol=TOLA * 2, sig=sig, nt=True, mech="cb_trace_norm:not-absolutely-homogeneous",
